@@ -29,7 +29,8 @@ lookahead tries and their union. For these
   NOT proved are listed there with `none`.
 
 The full statement is `NeverPanics` at the end; it is NOT proved and is FALSE on the unchanged code
-(findings F10, F13, F27–F29, reproduced by the exploration harness on every run). The PAR front
+(findings F10, F26–F28, reproduced by the exploration harness on every run; F1 and F13 — lalry's
+`unreachable!()` — were of this kind and have been repaired in parol). The PAR front
 end (`parol_parser`, `ParolGrammar` actions, `GrammarConfig::try_from`), type deduction, symbol
 table, source rendering and the external crates lalry / scnr2_generate are not modelled: for them
 `harness/src/c26.rs` only EXPLORES (mutated and generated grammar texts through the real pipeline
@@ -56,7 +57,7 @@ theorem stage_total_canon (ty : GType) (fuel : Nat) (ps : List EProd) :
 
 /-- `utils::generate_name` (used by canonicalisation, left factoring and augmentation): the search
     always ends with a name outside the exclusions. (The counter is an unbounded `Nat` here; the
-    `usize` counter of the code overflows for a numeric suffix of 2^64 − 1 — finding F27.) -/
+    `usize` counter of the code overflows for a numeric suffix of 2^64 − 1 — finding F26.) -/
 theorem stage_total_generate_name (excl : List Name) (pref : Name) :
     ∃ X, generateName excl pref = some X ∧ X ∉ excl := by
   obtain ⟨X, hX⟩ := generate_name_total excl pref
@@ -110,11 +111,11 @@ theorem stage_total_augment (G : Grammar) : ∃ G', augmentGrammar G = some G' :
 /-! ## the chain: `check_and_transform_grammar` Ok ⇒ the class of C06/C05 -/
 
 /-- **`pre_established` for FIRST_k / FOLLOW_k / `decidable`**: a grammar that passes
-    `check_and_transform_grammar` for LL(k) (verdict `passed` of the model, C11) and has no
-    terminal numbered 0 (parol numbers user terminals from 5) lies in the class in which C06 proves
-    the computed sets exact and C05 proves the decision exact: every non-terminal used is
-    productive, every production has a terminating right context, and the left-corner relation
-    (through nullable prefixes) has a rank function. -/
+    `check_and_transform_grammar` for LL(k) (verdict `passed` of the model, C11) lies in the class in
+    which C06 proves the computed sets exact and C05 proves the decision exact: every non-terminal
+    used is productive, every production has a terminating right context, and the left-corner
+    relation (through nullable prefixes) has a rank function. (C05/C06 need in addition that no
+    terminal is numbered 0 — parol numbers user terminals from 5 — see `pre_established_c05`.) -/
 theorem pre_established_analysis (G : Grammar)
     (hpass : checkGrammar G true [] = .ok .passed) :
     KS.Productive G ∧ KS.Reachable G ∧ KS.NoLeftRec G := by
@@ -140,19 +141,19 @@ theorem pre_established_c05 (G : Grammar) (fuel K : Nat)
 
 /-- `Terminals::new(m)` (reached from every `KTupleBuilder`/`KTuplesBuilder` call of
     `first_k`/`follow_k`) is total exactly below the 12-bit limit: for `m + 1 < 4096` it returns a
-    well-formed word, otherwise it panics. -/
+    word (well-formed: C32's `wf_new`), otherwise it panics. -/
 theorem stage_total_terminals (m : Nat) :
-    (m + 1 < 4096 → ∃ t, Tm.new m = some t ∧ Tm.WF t) ∧ (4096 ≤ m + 1 → Tm.new m = none) := by
+    (m + 1 < 4096 → ∃ t, Tm.new m = some t) ∧ (4096 ≤ m + 1 → Tm.new m = none) := by
   constructor
   · intro h
     cases hn : Tm.new m with
     | none => exact absurd ((Tm.new_panics_iff m).1 hn) (by omega)
-    | some t => exact ⟨t, rfl, Tm.wf_new hn⟩
+    | some t => exact ⟨t, rfl⟩
   · exact (Tm.new_panics_iff m).2
 
 /-- `max_terminal_index` is the number of terminals of the grammar plus the five built-in ones:
     up to 4089 user terminals `Terminals::new` is total. -/
-theorem pre_established_terminals (n : Nat) (h : n ≤ 4089) : ∃ t, Tm.new (n + 5) = some t ∧ Tm.WF t :=
+theorem pre_established_terminals (n : Nat) (h : n ≤ 4089) : ∃ t, Tm.new (n + 5) = some t :=
   (stage_total_terminals (n + 5)).1 (by omega)
 
 /-- **Finding F10 (witness)**: with 4090 user terminals the constructor panics, and no earlier stage
